@@ -111,7 +111,9 @@ func c19Expect(stream []byte) (want, why string) {
 				case anyCaseRtspURL:
 					return "unjudged", "options-mixed-case-rtsp-scheme"
 				case t == "*" && vH:
-					return "unjudged", "options-star-http-version"
+					// "RTSP exactly when its target is '*' with an RTSP version or an rtsp:// URL": the asterisk form
+					// with an HTTP version is an HTTP request line (server-wide OPTIONS)
+					return "http", "options-star-http-version"
 				case vH:
 					return "http", "options-http"
 				default:
